@@ -255,8 +255,11 @@ func (grid *RegularGrid) IntersectQuad(r Ray) (*Quad, float32) {
 
 func (grid *RegularGrid) GetRegion(min Vector3f, max Vector3f) []*Quad {
 	// clamp input to grid size:
-	min = Vector3f{(float32)(math.Max((float64)(min.x), (float64)(grid.Min.x))), 0, (float32)(math.Max((float64)(min.z), (float64)(grid.Min.z)))}
-	max = Vector3f{(float32)(math.Min((float64)(max.x), (float64)(grid.Max.x))), 0, (float32)(math.Min((float64)(max.z), (float64)(grid.Max.z)))}
+	clamp := func(v, lo, hi float32) float32 {
+		return (float32)(math.Min(math.Max((float64)(v), (float64)(lo)), (float64)(hi)))
+	}
+	min = Vector3f{clamp(min.x, grid.Min.x, grid.Max.x), 0, clamp(min.z, grid.Min.z, grid.Max.z)}
+	max = Vector3f{clamp(max.x, grid.Min.x, grid.Max.x), 0, clamp(max.z, grid.Min.z, grid.Max.z)}
 
 	minXGridCoord := (uint)(math.Floor((float64)(min.x-grid.Min.x) / (float64)(grid.Resolution)))
 	minYGridCoord := (uint)(math.Floor((float64)(min.z-grid.Min.z) / (float64)(grid.Resolution)))
